@@ -164,6 +164,91 @@ def temp_name_prog(src):
     return lean_ops, named, fm.group(1), uses_part, ("process::id()" in fm.group(2)), arg_kinds
 
 
+# ---- small arithmetic helpers of bits.rs, translated expression by expression ---------------------------------------
+import ast as _ast
+
+BITS_FNS = ["words_to_bytes", "bytes_to_words", "round_up_to_word_bytes", "words_to_bits", "bits_to_words",
+            "round_up_to_word_bits", "div_round_up", "split_offset", "bit_offset"]
+
+
+def translate_bits_fns(src, env):
+    """Each listed function must be `pub fn name(params: usize…) -> usize | (usize, usize) { <one expression> }` over
+    + - * / << >> & |, integer literals, module constants, parameters and calls to other listed functions.  The result is
+    a Lean definition in the model's vocabulary (`addM/subM/mulM` in the arithmetic mode, division panicking on zero,
+    `<<` dropping the bits shifted out of the word)."""
+    out = []
+    for name in BITS_FNS:
+        m = re.search(r"pub fn %s\s*\(([^)]*)\)\s*->\s*([^{]+)\{(.*?)\n\}" % name, src, re.S)
+        if not m:
+            raise ParseError("bits::%s: function not found" % name)
+        params = []
+        for prm in m.group(1).split(","):
+            pm = re.fullmatch(r"\s*(\w+)\s*:\s*usize\s*", prm)
+            if not pm:
+                raise ParseError("bits::%s: parameter %r is not `name: usize`" % (name, prm))
+            params.append(pm.group(1))
+        body = strip_comments(m.group(3)).strip()
+        if ";" in body or "let " in body or "{" in body:
+            raise ParseError("bits::%s: body is not a single expression" % name)
+        try:
+            tree = _ast.parse(body, mode="eval").body
+        except SyntaxError:
+            raise ParseError("bits::%s: expression not understood: %r" % (name, body))
+        stmts, counter = [], [0]
+
+        def fresh():
+            counter[0] += 1
+            return "t%d" % counter[0]
+
+        def emit(n):
+            if isinstance(n, _ast.Constant) and isinstance(n.value, int):
+                return str(n.value)
+            if isinstance(n, _ast.Name):
+                if n.id in params:
+                    return n.id
+                if n.id in env:
+                    return str(env[n.id])
+                raise ParseError("bits::%s: unknown name %s" % (name, n.id))
+            if isinstance(n, _ast.BinOp):
+                a, b = emit(n.left), emit(n.right)
+                if a.isdigit() and b.isdigit():          # constant folding (rustc evaluates these at compile time)
+                    x, y = int(a), int(b)
+                    ops = {_ast.Add: x + y, _ast.Sub: x - y, _ast.Mult: x * y, _ast.BitAnd: x & y, _ast.BitOr: x | y}
+                    for k, v in ops.items():
+                        if isinstance(n.op, k) and 0 <= v < 2 ** 64:
+                            return str(v)
+                t = fresh()
+                if isinstance(n.op, _ast.Add): stmts.append("let %s ← addM m %s %s" % (t, a, b))
+                elif isinstance(n.op, _ast.Sub): stmts.append("let %s ← subM m %s %s" % (t, a, b))
+                elif isinstance(n.op, _ast.Mult): stmts.append("let %s ← mulM m %s %s" % (t, a, b))
+                elif isinstance(n.op, _ast.Div): stmts.append("let %s ← gDiv %s %s" % (t, a, b))
+                elif isinstance(n.op, _ast.RShift): stmts.append("let %s := %s >>> %s" % (t, a, b))
+                elif isinstance(n.op, _ast.LShift): stmts.append("let %s := (%s <<< %s) %% U64" % (t, a, b))
+                elif isinstance(n.op, _ast.BitAnd): stmts.append("let %s := %s &&& %s" % (t, a, b))
+                elif isinstance(n.op, _ast.BitOr): stmts.append("let %s := %s ||| %s" % (t, a, b))
+                else: raise ParseError("bits::%s: unsupported operator" % name)
+                return t
+            if isinstance(n, _ast.Call) and isinstance(n.func, _ast.Name) and n.func.id in BITS_FNS:
+                args = [emit(a) for a in n.args]
+                t = fresh()
+                stmts.append("let %s ← gen_%s m %s" % (t, n.func.id, " ".join(args)))
+                return t
+            raise ParseError("bits::%s: unsupported expression %r" % (name, _ast.dump(n)))
+
+        if isinstance(tree, _ast.Tuple):
+            parts = [emit(e) for e in tree.elts]
+            ret, rty = "(" + ", ".join(parts) + ")", " × ".join(["Nat"] * len(parts))
+        else:
+            ret, rty = emit(tree), "Nat"
+        out.append("def gen_%s (m : Mode) %s: Outcome (%s) := do\n%s  return %s\n" % (
+            name, "".join("(%s : Nat) " % q for q in params), rty, "".join("  %s\n" % st for st in stmts), ret))
+    return ("-- GENERATED by tools/gen_lean.py from /repo/src/bits.rs (arithmetic helpers) — do not edit.\n"
+            "import Sds.Model.Basic\nnamespace Sds.Generated\nopen Sds Outcome\n\n"
+            "/-- `a / b` on `usize`: division by zero panics -/\n"
+            "def gDiv (a b : Nat) : Outcome Nat := if b = 0 then fault (.panic .other) else ok (a / b)\n\n"
+            + "\n".join(out) + "\nend Sds.Generated\n")
+
+
 def drop_closes(src, ty):
     """true iff `impl Drop for <ty>` exists and its `drop` body calls self.close() (result used or discarded)"""
     m = re.search(r"impl\s+Drop\s+for\s+%s\s*\{(.*?)\n\}" % ty, strip_comments(src), re.S)
@@ -231,6 +316,7 @@ def generate():
     lines += ["", "end Sds.Generated", ""]
     files["Consts.lean"] = "\n".join(lines)
 
+    files["BitsFns.lean"] = translate_bits_fns(bits, c)
     ser = read("serialize.rs")
     # MemoryMap: how failure of mmap is detected, and the length passed to munmap
     mm = re.search(r"let ptr = unsafe \{ libc::mmap\([^;]*\) \};\s*if\s+([^{]+)\{\s*return Err", ser)
